@@ -1079,6 +1079,11 @@ class Ev:
         if isinstance(op, ast.Div):
             return x / y
         if isinstance(op, ast.Pow):
+            if y.is_Integer and y < 0 and x.free_symbols and maybe_integer_typed(x):
+                e = RaisedV("IntegerDtype", self.err("x", n, mod).where)
+                e.detail = (f"an integer-typed array raised to the negative integer power {y}: numpy refuses that (ValueError: Integers to negative integer powers are not allowed), and the temperature "
+                            f"grid is integer-typed whenever T_MIN and DT are written as whole numbers (qha.tools.arange)")
+                raise e
             return x ** y
         if isinstance(op, ast.FloorDiv) and x.is_Integer and y.is_Integer:
             return sp.Integer(int(x) // int(y))
@@ -3930,6 +3935,60 @@ LIB.update({"list.index": lib_list_index2, "list.pop": lib_list_pop,
 
 
 # ---------------------------------------------------------------- broader numpy / builtins coverage
+INTEGER_GRID_SYMBOLS = {"T"}     # grids that qha builds with qha.tools.arange(MIN, N, STEP) = MIN + STEP * numpy.arange(N): integer-typed when the settings are whole numbers
+
+
+def maybe_integer_typed(x) -> bool:
+    """the array this expression stands for can have an integer element type: an integer-coefficient polynomial in a grid that is integer-typed
+    whenever the user writes whole numbers (the temperature grid T_MIN + DT * arange(NT))"""
+    if isinstance(x, Masked):
+        x = x.val
+    if isinstance(x, ArrV):
+        return all(maybe_integer_typed(c) for c in list(x.cells.values()) + ([x.fill] if len(x.cells) < max(1, int(np_prod(x.shape))) else []))
+    if not is_sym(x):
+        return isinstance(x, int) and not isinstance(x, bool)
+    x = x.subs({u_: 1 for u_ in x.free_symbols if u_ in set(U.UNIT_SYMBOLS)})       # unit typing (T / K is the bare number of kelvins) does not change the element type
+    if not x.free_symbols:
+        return bool(x.is_Integer)
+    if not all(s_.name in INTEGER_GRID_SYMBOLS for s_ in x.free_symbols):
+        return False
+    try:
+        poly = sp.Poly(sp.expand(x), *sorted(x.free_symbols, key=str))
+    except sp.PolynomialError:
+        return False
+    return all(c.is_Integer for c in poly.coeffs())
+
+
+def np_prod(shape):
+    out = 1
+    for d in shape:
+        out *= d
+    return out
+
+
+def lib_reciprocal(ev, a, k, n, mod):
+    """numpy.reciprocal keeps the element type of its argument: on an integer array it is the integer quotient 1 // x (0 for every |x| > 1)"""
+    dt = k.get("dtype")
+    if dt is not None and not _float_dtype(dt):
+        raise ev.err(f"numpy.reciprocal with dtype {dt!r} is not modelled", n, mod)
+    if dt is None and maybe_integer_typed(a[0]):
+        e = RaisedV("IntegerDtype", ev.err("x", n, mod).where)
+        e.detail = (f"numpy.reciprocal({src_of(n)}) keeps the element type of its argument, and the temperature grid is integer-typed whenever T_MIN and DT are written as whole numbers "
+                    f"(qha.tools.arange): the result is then the integer quotient, 0 for every T > 1 (and a division-by-zero warning at T = 0), not 1/T")
+        raise e
+    return _elementwise(lambda x: 1 / x)(ev, a, {}, n, mod)
+
+
+lib_reciprocal.kw = ("dtype",)
+
+
+def src_of(n):
+    try:
+        return ast.unparse(n.args[0]) if isinstance(n, ast.Call) and n.args else ast.unparse(n)
+    except Exception:
+        return "..."
+
+
 def _elementwise(fn):
     """lift a scalar sympy function over ArrV cells"""
     def f(ev, a, k, n, mod):
@@ -4536,7 +4595,7 @@ LIB.update({
     "numpy.multiply": _binary(ast.Mult()), "numpy.divide": _binary(ast.Div()), "numpy.true_divide": _binary(ast.Div()),
     "numpy.add": _binary(ast.Add()), "numpy.subtract": _binary(ast.Sub()), "numpy.power": _binary(ast.Pow()),
     "numpy.negative": _elementwise(lambda x: -x), "numpy.square": _elementwise(lambda x: x ** 2),
-    "numpy.reciprocal": _elementwise(lambda x: 1 / x), "numpy.conj": _elementwise(sp.conjugate), "numpy.conjugate": _elementwise(sp.conjugate),
+    "numpy.reciprocal": lib_reciprocal, "numpy.conj": _elementwise(sp.conjugate), "numpy.conjugate": _elementwise(sp.conjugate),
     "numpy.asarray": lib_asarray, "numpy.ascontiguousarray": lib_asarray, "numpy.asfarray": lib_asarray, "numpy.float64": _ID, "numpy.atleast_1d": lib_asarray,
     "numpy.asanyarray": lib_asarray,
     "numpy.mean": lib_np_average(lib_opaque_reduce("MEAN"), False), "numpy.average": lib_np_average(None, True), "slice": lib_slice, "numpy.amin": lib_opaque_reduce("MIN"), "numpy.amax": lib_opaque_reduce("MAX"),
